@@ -143,6 +143,14 @@ def generate(rng, tier):
         second = {"kind": "pred_pos", "intervals": [dict(i) for i in box], "level": {"kind": "le", "k": rng.randrange(1, p["levelmax"] + 1)}}
         calls = [first, second] if rng.random() < 0.5 else [second, first]
         ncalls = max(0, ncalls - 2)
+        if rng.random() < 0.5:
+            # a load of the finest level alone (a level floor), then small boxes: what the floor implied for the first call must
+            # not shape the choice of files of the later ones
+            p["levelmax"] = 4
+            calls = [{"kind": "pred_level", "level": rng.choice([{"kind": "eq", "k": 4}, {"kind": "between", "a": 3, "b": 5}])}]
+            for _ in range(rng.choice([3, 4, 6])):
+                calls.append({"kind": "pred_pos", "intervals": [gen_interval(rng, x, 4, kind=rng.choice(["tiny", "tiny", "leaf"])) for x in "xyz"]})
+            ncalls = 0
     for _ in range(ncalls):
         c = gen_call(rng, p)
         # a call that sets per-call reader state is often followed by one that does not touch that reader at all
